@@ -225,6 +225,13 @@ func (n *Node) crash() {
 	n.s.tracef("%s CRASH", n)
 }
 
+// callProbe performs an injected call that is not part of the organic run: no
+// crash points, no delivery bookkeeping, but the same panic capture and oracles.
+func (n *Node) callProbe(st *Step, fn func()) {
+	st.Probe = true
+	n.call(st, fn)
+}
+
 // call performs one API call into the node's library instance.
 func (n *Node) call(st *Step, fn func()) {
 	s := n.s
@@ -250,7 +257,7 @@ func (n *Node) call(st *Step, fn func()) {
 	if s.record {
 		s.tracef("%s %s", n, st.describe())
 	}
-	if st.Op == OpReceive && st.P != nil {
+	if st.Op == OpReceive && st.P != nil && !st.Probe {
 		n.noteDelivery(st.P)
 	}
 	if st.Op == OpStart || st.Op == OpReset {
@@ -511,6 +518,21 @@ func (n *Node) options() []func(*dbft.Config[Hash]) {
 				n.facts.early[p.Hash()] = true
 				n.facts.anyEarly = true
 				s.probe("early_commit_before_header")
+			}
+			if sc.VerdictPM > 0 && s.tape.Chance(SApp, sc.VerdictPM, 1000) {
+				return errProc
+			}
+			return nil
+		}),
+		dbft.WithVerifyPrepareRequest[Hash](func(dbft.ConsensusPayload[Hash]) error {
+			if sc.VerdictPM > 0 && s.tape.Chance(SApp, sc.VerdictPM, 1000) {
+				return errProc
+			}
+			return nil
+		}),
+		dbft.WithVerifyPrepareResponse[Hash](func(dbft.ConsensusPayload[Hash]) error {
+			if sc.VerdictPM > 0 && s.tape.Chance(SApp, sc.VerdictPM, 1000) {
+				return errProc
 			}
 			return nil
 		}),
